@@ -313,13 +313,6 @@ argument at the entry, let the hops look at their decoded targets as they are â€
 only to show (`Props.C15.clean_once_is_not_a_fixed_point`) that the fixed-point clause fails for
 it, i.e. that the clause is about per-hop cleaning. -/
 
-/-- the target a hop follows, as a function of the CLEANED url `c`: what the extraction
-designates, provided it is strictly shorter than `c` (the code's guard) -/
-def followed (target : Str â†’ Option Str) (c : Str) : Option Str :=
-  match target c with
-  | some t => if t.length < c.length then some t else none
-  | none => none
-
 theorem followed_length_lt (target : Str â†’ Option Str) (c t : Str) (h : followed target c = some t) :
     t.length < c.length := by
   unfold followed at h
